@@ -127,6 +127,22 @@ pub fn run(ctx: &Ctx) {
             check(c, st)
         },
     );
+    // thorough only: larger connection sets
+    if ctx.tier == crate::engine::Tier::Thorough {
+        ctx.run_prop(
+            "interleaved-vs-isolated-many-connections",
+            "as interleaved-vs-isolated with up to 32 connections per trace (thorough tier only); non-trivial as above",
+            40_000,
+            || trace::trace_case(32, true),
+            |c: &TraceCase, st: &mut Stats| {
+                if nontrivial(c) {
+                    st.nontrivial(c);
+                }
+                st.sample(|| json!({"connections": c.conns.len(), "packets": c.interleaved().len()}));
+                check(c, st)
+            },
+        );
+    }
     // HTTP/2 heavy traces: every connection is HTTP/2 and every request block inserts into and reads from the dynamic table
     let n = ctx.tier.pick(10_000, 200_000);
     ctx.run_prop(
